@@ -14,6 +14,7 @@ import (
 	"encoding/binary"
 	"fmt"
 	"io"
+	"net"
 	"os"
 	"strings"
 	"testing"
@@ -51,8 +52,8 @@ func (c *vC14Conn) Read(p []byte) (int, error) {
 }
 func (c *vC14Conn) Write(p []byte) (int, error)        { return c.wr.Write(p) }
 func (c *vC14Conn) Close() error                       { return nil }
-func (c *vC14Conn) LocalAddr() net_Addr                { return vC14Addr(1) }
-func (c *vC14Conn) RemoteAddr() net_Addr               { return vC14Addr(2) }
+func (c *vC14Conn) LocalAddr() net.Addr                { return vC14Addr(1) }
+func (c *vC14Conn) RemoteAddr() net.Addr               { return vC14Addr(2) }
 func (c *vC14Conn) SetDeadline(t time.Time) error      { return nil }
 func (c *vC14Conn) SetReadDeadline(t time.Time) error  { return nil }
 func (c *vC14Conn) SetWriteDeadline(t time.Time) error { return nil }
@@ -68,6 +69,7 @@ type vC14Hdr struct {
 	rsv    int
 	op     int
 	masked bool
+	ext    bool // 16- or 64-bit length form
 	length uint64
 	key    []byte
 }
@@ -98,12 +100,14 @@ func vC14Header(bs []byte) (int, vC14Hdr, []byte) {
 	case l7 < 126:
 		h.length = l7
 	case l7 == 126:
+		h.ext = true
 		if len(r) < 2 {
 			return vC14HCut, h, nil
 		}
 		h.length = uint64(r[0])<<8 | uint64(r[1])
 		r = r[2:]
 	default:
+		h.ext = true
 		if len(r) < 8 {
 			return vC14HCut, h, nil
 		}
@@ -203,9 +207,9 @@ type vC14Verdict struct {
 func vC14Spec(server bool, limit int64, wire []byte) vC14Verdict {
 	var v vC14Verdict
 	v.code = -1
-	cap := uint64(1<<63 - 1)
+	maxLen := uint64(1<<63 - 1)
 	if limit > 0 {
-		cap = uint64(limit)
+		maxLen = uint64(limit)
 	}
 	open := false
 	var mt int
@@ -233,7 +237,7 @@ func vC14Spec(server bool, limit int64, wire []byte) vC14Verdict {
 			return v
 		}
 		if h.op >= 8 {
-			if h.op > 10 || !h.fin || h.length > 125 {
+			if h.op > 10 || !h.fin || h.length > 125 || h.ext {
 				v.outcome = vC14OViolation
 				return v
 			}
@@ -277,7 +281,7 @@ func vC14Spec(server bool, limit int64, wire []byte) vC14Verdict {
 		if h.op != 0 {
 			mt, frags, total = h.op, nil, 0
 		}
-		if total+h.length > cap { // both < 2^63: no wrap
+		if total+h.length > maxLen { // both < 2^63: no wrap
 			v.outcome = vC14OTooBig
 			return v
 		}
@@ -938,21 +942,23 @@ func vC14Alphabet() []vC14Sym {
 	return out
 }
 
-// all sequences of at most depth symbols in which every symbol but the last keeps the session going
-func vC14Enumerate(depth int, server bool, emit func(wire []byte, last vC14Sym, d int)) {
+// all sequences of at most depth symbols in which every symbol but the last keeps the session
+// going.  Non-final symbols have lengths in {0, 125, 126}; at the deepest level the final symbol
+// has RSV = 0 and the right mask bit when reducedLast is set (those two checks do not depend on
+// the history and are covered at the shallower levels).
+func vC14Enumerate(depth int, reducedLast bool, full64Depth int, server bool, emit func(wire []byte, last vC14Sym, d int)) {
 	alpha := vC14Alphabet()
 	var rec func(prefix []byte, d int)
 	rec = func(prefix []byte, d int) {
 		for _, s := range alpha {
-			full := d == 1 || (s.form == 3 && len(prefix) < 300 && d <= 2)
-			if d > 1 && s.form == 3 && !full {
-				// as a non-last symbol a 65536-byte frame is only used with its whole payload
+			if reducedLast && d == depth && d > 2 && (s.rsv != 0 || s.wrong) {
+				continue
 			}
+			// the 65536-byte frame carries its whole payload only near the root (size of the run)
+			full := s.form == 3 && d <= full64Depth
 			w := append(append([]byte{}, prefix...), vC14Ser(vC14SymFrame(s, server, full))...)
 			emit(w, s, d)
 			if d < depth {
-				// continue only if the receiver is still going after this frame: prefix lengths are
-				// restricted to {0, 125, 126} to keep the enumeration small
 				if s.form > 2 || s.rsv != 0 || s.wrong {
 					continue
 				}
@@ -1007,20 +1013,22 @@ func TestVerifC14(t *testing.T) {
 		runOne(c)
 	}
 	// 1. abstract alphabet, exhaustively
-	depth := 3
+	depth, full64 := 3, 1
 	if k.thorough() {
-		depth = 4
+		depth, full64 = 4, 2
 	}
 	if k.nOverr > 0 {
 		depth = 2
 	}
 	for _, server := range []bool{false, true} {
-		vC14Enumerate(depth, server, func(wire []byte, last vC14Sym, d int) {
+		vC14Enumerate(depth, true, full64, server, func(wire []byte, last vC14Sym, d int) {
 			k.count("alphabet-depth", fmt.Sprint(d))
 			limits := []int64{0}
-			if d <= 2 || k.thorough() {
-				// limits relative to the last frame: one below / exactly the running message size
+			if d <= 2 {
+				// limits around the sizes that occur: one frame, two frames
 				limits = append(limits, 125, 126, 251)
+			} else if d < depth {
+				limits = append(limits, 251)
 			}
 			for _, l := range limits {
 				runOne(vL(vZ(vC14Fixed()), vBool(server), vZ(l), vZ(1), vB(wire)))
